@@ -370,11 +370,47 @@ func c14KeyEncoding(r *Run) {
 			r.count("key/quote+rawjson")
 		}
 	}
+	// small scope, exhaustive: every byte string of length 1 and 2, and every lead byte of a three
+	// or four byte sequence with every second byte and the boundary values of the later ones —
+	// the whole decision table of utf8.DecodeRuneInString
+	var scope []string
+	for a := 0; a < 256; a++ {
+		scope = append(scope, string([]byte{byte(a)}))
+		for b := 0; b < 256; b++ {
+			scope = append(scope, string([]byte{byte(a), byte(b)}))
+		}
+	}
+	for a := 0xe0; a <= 0xf5; a++ {
+		for b := 0; b < 256; b++ {
+			for _, c := range []byte{0x7f, 0x80, 0xbf, 0xc0} {
+				scope = append(scope, string([]byte{byte(a), byte(b), c}))
+				if a >= 0xf0 {
+					for _, d := range []byte{0x7f, 0x80, 0xbf, 0xc0} {
+						scope = append(scope, string([]byte{byte(a), byte(b), c, d}))
+					}
+				}
+			}
+		}
+	}
+	for _, s := range scope {
+		line := "key.quote " + encStr(s)
+		ans := r.op(line)
+		r.eval(line, true)
+		q := string(decBytes(sexp{atom: ans}))
+		if back, err := strconv.Unquote(q); err != nil || back != s {
+			r.fail(Failure{Oracle: "strconv.Unquote(strconv.QuoteToASCII(s)) = s", Op: line, Got: ans, Want: encStr(s)})
+		}
+		if r.tier == "thorough" {
+			r.op("key.rawjson " + encKeyPayload([]tuple{{"k", s}}))
+		}
+	}
+	r.count("key/quote small scope")
+	r.hist["key/quote small scope"] += len(scope) - 1
 	// the F32 pair under the old encoder: one text
 	a := execOp("key.rawjson " + encKeyPayload([]tuple{{"locator", "a\xffb"}}))
 	b := execOp("key.rawjson " + encKeyPayload([]tuple{{"locator", "a\xfeb"}}))
 	if !bytes.Equal([]byte(a), []byte(b)) {
 		r.fail(Failure{Oracle: "json.Marshal of the raw tuples writes a\\xffb and a\\xfeb alike (the witness of old_encoding_not_injective)", Op: "key.rawjson", Got: a, Want: b})
 	}
-	r.notes = append(r.notes, fmt.Sprintf("key encoding: %d payloads through key.enc (model = encodePayload on the real strconv / encoding/json), each read back from its key and checked for key collisions; key.quote / key.rawjson on %d stress strings", len(seen), len(c14KeyStrings)))
+	r.notes = append(r.notes, fmt.Sprintf("key encoding: %d payloads through key.enc (model = encodePayload on the real strconv / encoding/json), each read back from its key and checked for key collisions; key.quote / key.rawjson on %d stress strings; key.quote on all %d byte strings of the small scope (lengths 1, 2; lead x second x boundary bytes for lengths 3, 4), each unquoted again", len(seen), len(c14KeyStrings), len(scope)))
 }
